@@ -283,6 +283,10 @@ def parser_semantics(ctx, rule):
         obs.append(('get', call(p, 'get_message')))
         return obs
     outs = ai.explore(history)
+    import os
+    if os.environ.get('MIDOLINT_DEBUG'):
+        for o in outs:
+            print('DBG', [(getattr(d[0], 'lineno', None), d[1], d[2]) for d in o.decisions])
     if len(outs) != 1 or outs[0].kind != 'return':
         ctx.fail(rule, 'parser-history', w, f'feeding and retrieving does not complete on one path: {outs}', construct=f'{cls.qname}::history::outcomes')
     else:
